@@ -60,6 +60,9 @@ class UICheck(Check):
     trusted = ["Go harness facade: input scripting, stdout capture, text tokeniser, literal substring test", "TLC, CommunityModules Json"]
     mc = [("UI_MC", "UI_MC")]
     whys = None
+    # the model also says how the mode stack evolves, which lines a view shows and that the emulator's cursor
+    # follows the instruction pointer; these are checked on every session and reported, but belong to no listed property
+    extra_whys = ("modestack", "ipcursor", "window")
 
     def stateful(self):
         return True
@@ -67,7 +70,7 @@ class UICheck(Check):
     def filter_bad(self, bad):
         if self.whys is None:
             return bad
-        return [b for b in bad if b["why"] in self.whys]
+        return [b for b in bad if b["why"] in self.whys or b["why"] in self.extra_whys]
 
     def nontrivial_key(self, group, events):
         if len(group) < 2:
